@@ -18,3 +18,61 @@ RULES = {
 
 # property id -> (engine, technique, level text, level note, design ref); filled as checks land
 CLAIMS = {}
+
+_NOTE = (
+    "sampling, not proof; trusted base: the reference interpreter sim/ref.py (NumPy/SciPy, float64, "
+    "no genjax import), the acceptance table in sim/script.py, JAX PRNG/XLA determinism; bounds: "
+    "depth<=3, vector length<=3, <=12 scalar choices, nine leaf distributions, float32 tolerance 2e-4"
+)
+
+_T = "deterministic simulation with fault injection: seeded GFI sessions on generated programs, replicas under injected environment faults, stepped against a reference model; "
+
+
+def _a(pid, technique, text, ref="DESIGN 3"):
+    CLAIMS[pid] = ("gfisim", _T + technique, text, _NOTE, ref + " " + pid)
+
+
+_a("C01", "per-step invariant assess(trace.choices, trace.args) == (score, retval) after every create/edit/undo on every replica",
+   "Exploration: every trace produced in seeded sessions of simulate/importance/update/regenerate/index/static/empty edits and undos is re-assessed under the replica's staging context and compared with the trace and with the reference interpreter run on the trace's own choices. Evidence, not proof; a clean run means no disagreement on the sessions explored.")
+_a("C02", "per-step invariant score == reference log-density of the trace's own choices",
+   "Exploration: scores of all traces and of assess are compared with an independent float64 density interpreter of the program AST; masked-off and non-selected choices must contribute nothing.")
+_a("C03", "post-condition of every importance step against per-address reference log-densities",
+   "Exploration: empty, full, partial and single-address constraints (several builder paths, indexed / sliced / masked encodings) on generated programs; weight vs sum of constrained&visited log-densities, constraint installed, empty=>0, full=>score.")
+_a("C04", "replay determinism under equal key material across staging contexts, cold caches and replicas",
+   "Exploration: same-key re-execution must be bit-identical in the same context and agree across eager/jit/vmap/cache-cold replicas; the distributional clause is covered by the reference-table G-test in the thorough tier only where finite (statistical supplement, labelled as such).")
+_a("C05", "post-conditions of every update step and of update chains against the reference state",
+   "Exploration: constraints installed, unconstrained visited choices bit-identical, weight == new-old reference score when no new choice is introduced, backward constraint == previous values, new arguments stored; argument changes keep shapes; switch-resample exemption per the documented exception.")
+_a("C06", "history check: backward request of every accepted edit applied with the original arguments restores choices, score, retval and negates the weight",
+   "Exploration over edit/undo chains (Update, Regenerate, IndexRequest, StaticRequest, undo of undo) on all program classes.")
+_a("C07", "post-conditions of every Regenerate step with selections from the term grammar interpreted by a reference predicate",
+   "Exploration: unselected choices bit-identical, weight == new-old score, empty selection is the identity with weight 0.")
+_a("C08", "NoChange leaves compared with the previous return value along every history; paired replicas differing only by NoChange/UnknownChange on unchanged arguments",
+   "Exploration: (i) every retdiff leaf tagged NoChange must equal the previous value; (ii) tag:unknown replicas must agree with the plain replica on trace, weight and backward request (never applied where an argument reaches a switch index).")
+_a("C10", "read steps: project(selection) vs sum of selected reference log-densities, plus the all/none/complement algebra",
+   "Exploration on all programs whose combinators support project; mask-rooted programs are expected to refuse.")
+_a("C11", "vmap/repeat-rooted sessions vs the reference 'N independent calls', index edits must not leak to other elements",
+   "Exploration over in_axes configurations, lengths 0-3, indexed constraints (scalar, array, slice, vmapped builders), IndexRequest at first/middle/last.")
+_a("C12", "scan-rooted sessions: after every generate/update/regenerate/index edit the trace must equal the documented Python loop run on its own choices",
+   "Exploration over kernels, lengths 1-3, carries, scanned inputs and edit positions; accumulate/reduce/iterate/iterate_final against their docstring loops.")
+_a("C13", "switch/or_else/mix-rooted sessions vs 'branch clamp(k) alone', Python-int and array indices, out-of-range indices",
+   "Exploration: score, retval, valid choices, importance weights and edits must come from the executed branch; index encodings must agree.")
+_a("C14", "mask-rooted sessions: flag True transparent, flag False inert, every flag transition in updates weighs new-old score; concrete vs array flags as replicas",
+   "Exploration over inner programs and flag transitions, scalar flags under vmap.")
+_a("C15", "dimap/map/contramap-rooted sessions vs inner-on-pre(args) with post(args, pre(args), ret) computed by the reference; retdiff primal and NoChange tags checked after edits",
+   "Exploration over generated pre/post expression maps (including constant outputs).")
+_a("C16", "masked_iterate(_final)-rooted sessions vs the reference loop (False steps: no score, value unchanged)",
+   "Exploration over step kernels and all mask patterns of length <=3.")
+_a("C22", "per-step invariant valid address set == reference visited set; abort faults: assess with visited addresses removed must raise MissingAddress iff a visited call site lost its whole sub-map",
+   "Exploration over string / tuple addressed static programs; sessions continue after the aborted operation.")
+_a("C23", "replica agreement under stage:jit, stage:vmap (sliced at the session's slot), boundary:flatten / boundary:jit-id perturbations",
+   "Exploration: every observable of every step (choices, score, retval, weight, backward constraint, project value) must agree between the eager plain replica and staged replicas.")
+_a("C32", "closure / partial_apply-rooted sessions: trace-level APIs with full arguments vs closure.edit / closure.update with the remaining arguments, keyword-carrying closures",
+   "Exploration: closures must behave as the wrapped function with stored arguments prepended in simulate, importance, assess, update and edit.")
+_a("C33", "abort:stray faults: invalid_subset must be None iff every address is traceable, else exactly the untraceable part",
+   "Exploration over constraints mixing valid addresses, unknown addresses and unknown leaves below valid prefixes.")
+_a("C34", "read steps: get_subtrace at every static call site vs the parent's sub-map and the reference per-call score",
+   "Exploration on static-rooted (and wrapper-rooted) programs with nested callees incl. vector combinators.")
+_a("C35", "paired encodings of constraints: Mask(v, True) concrete / array flag vs v; Mask(junk, False) vs absent; vectorised flags",
+   "Exploration: importance and update under enc:mask-* perturbations must agree with the plain replica and with the reference post-conditions.")
+_a("C38", "paired operations: propose vs simulate, importance vs generate (bitwise, same key); EmptyRequest, StaticRequest, DiffAnnotate(identity) post-conditions; Trace.* vs GenerativeFunction.* API variants",
+   "Exploration over request compositions and argument changes.")
